@@ -28,22 +28,50 @@ func facadeRun(args []string) {
 	var sk = newSink(*out, false)
 	var ti64 = &facadex.T[int64]{Name: "int64", Enc: func(i int) int64 { return int64(i) }, Dec: func(v int64) int { return int(v) }}
 	var tu64 = &facadex.T[uint64]{Name: "uint64", Enc: func(i int) uint64 { return uint64(i) }, Dec: func(v uint64) int { return int(v) }}
-	var tf64 = &facadex.T[float64]{Name: "float64", Enc: func(i int) float64 { return float64(i) + 0.5 }, Dec: func(v float64) int { return int(v) }}
-	var tstr = &facadex.T[string]{Name: "string", Enc: func(i int) string { return fmt.Sprintf("s%02d", i) }, Dec: func(v string) int {
+	var tf64 = &facadex.T[float64]{Name: "float64", Enc: func(i int) float64 {
+		if i == 0 {
+			return 0
+		}
+		return float64(i) + 0.5
+	}, Dec: func(v float64) int { return int(v) }}
+	var tstr = &facadex.T[string]{Name: "string", Enc: func(i int) string {
+		if i == 0 {
+			return "" // token 0 is the zero value
+		}
+		return fmt.Sprintf("s%02d", i)
+	}, Dec: func(v string) int {
 		var i int
 		fmt.Sscanf(v, "s%02d", &i)
 		return i
 	}}
-	var trune = &facadex.T[rune]{Name: "rune", Enc: func(i int) rune { return rune('a' + i) }, Dec: func(v rune) int { return int(v - 'a') }}
+	var trune = &facadex.T[rune]{Name: "rune", Enc: func(i int) rune {
+		if i == 0 {
+			return 0
+		}
+		return rune('a' + i)
+	}, Dec: func(v rune) int {
+		if v == 0 {
+			return 0
+		}
+		return int(v - 'a')
+	}}
 	var tbool = &facadex.T[bool]{Name: "bool", Enc: func(i int) bool { return i%2 == 0 }, Dec: func(v bool) int {
 		if v {
 			return 2
 		}
 		return 1
 	}}
-	var tany = &facadex.T[any]{Name: "any", Enc: func(i int) any { return int64(i) }, Dec: func(v any) int {
+	var tany = &facadex.T[any]{Name: "any", Enc: func(i int) any {
+		if i == 0 {
+			return "" // an empty string inside an `any`
+		}
+		return int64(i)
+	}, Dec: func(v any) int {
 		if x, ok := v.(int64); ok {
 			return int(x)
+		}
+		if x, ok := v.(string); ok && x == "" {
+			return 0
 		}
 		return -9
 	}}
